@@ -21,4 +21,10 @@ func register(c *CheckDef) { Checks[c.ID] = c }
 
 func init() {
 	register(&CheckDef{ID: "C01", Gen: genC01, Oracle: oracleC01, SweepBase: sweepBaseC01, SweepKinds: sweepKindsC01})
+	register(&CheckDef{ID: "C02", Gen: genC02, Oracle: oracleC02})
+	register(&CheckDef{ID: "C03", Gen: genC03, Oracle: oracleC03, SweepBase: sweepBaseC03, SweepKinds: sweepKindsC03})
+	register(&CheckDef{ID: "C06", Gen: genC06, Oracle: oracleC06})
+	register(&CheckDef{ID: "C07", Gen: genC07, Oracle: oracleC07})
+	register(&CheckDef{ID: "C08", Gen: genC08, Oracle: oracleC08})
+	register(&CheckDef{ID: "C12", Gen: genC12, Oracle: oracleC12, SweepBase: sweepBaseC12, SweepKinds: sweepKindsC12})
 }
